@@ -20,10 +20,66 @@ def _variant_overlay(base, v):
         if n != 1:
             raise PatchError("witness %s: anchor text matches %d times" % (v["id"], n))
         return {rel: text.replace(v["old"], v["new"])}
+    if v["type"] == "transform":
+        out = {}
+        for mod, rel in FILES.items():
+            out[rel] = TRANSFORMS[v["name"]](base(rel))
+        return out
     if v["type"] == "diff":
         with open(os.path.join(VERIF, v["path"])) as f:
             return apply_diff(base, f.read(), reverse=v.get("reverse", False))
     raise ValueError(v["type"])
+
+
+def _t_unparse(text):
+    """formatting-only rewrite: comments dropped, quotes / line breaks / parentheses normalised"""
+    return ast.unparse(ast.parse(text)) + "\n"
+
+
+class _Rename(ast.NodeTransformer):
+    """rename local variables (not parameters, not attributes) of every function: x -> x_"""
+
+    def visit_FunctionDef(self, node):
+        params = {a.arg for a in node.args.posonlyargs + node.args.args + node.args.kwonlyargs}
+        if node.args.vararg:
+            params.add(node.args.vararg.arg)
+        if node.args.kwarg:
+            params.add(node.args.kwarg.arg)
+        stores = {n.id for n in ast.walk(node) if isinstance(n, ast.Name) and isinstance(n.ctx, ast.Store)}
+        nested = {n.name for n in ast.walk(node) if isinstance(n, ast.FunctionDef) and n is not node}
+        glob = {x for n in ast.walk(node) if isinstance(n, (ast.Global, ast.Nonlocal)) for x in n.names}
+        # names of enclosing scopes that a nested function only reads must keep their spelling in both places:
+        # rename consistently inside this function's whole subtree
+        local = stores - params - nested - glob
+
+        def rec(n, shadow):
+            if isinstance(n, ast.FunctionDef) and n is not node:
+                inner = {a.arg for a in n.args.posonlyargs + n.args.args + n.args.kwonlyargs}
+                inner |= {x.id for x in ast.walk(n) if isinstance(x, ast.Name) and isinstance(x.ctx, ast.Store)} - local
+                shadow = shadow | inner
+            if isinstance(n, (ast.ListComp, ast.GeneratorExp, ast.SetComp, ast.DictComp)):
+                pass
+            if isinstance(n, ast.Name) and n.id in local and n.id not in shadow:
+                n.id = n.id + "_"
+            for ch in ast.iter_child_nodes(n):
+                rec(ch, shadow)
+        rec(node, set())
+        return node
+
+
+def _t_rename(text):
+    t = ast.parse(text)
+    for n in t.body:
+        if isinstance(n, ast.FunctionDef):
+            _Rename().visit(n)
+        elif isinstance(n, ast.ClassDef):
+            for m in n.body:
+                if isinstance(m, ast.FunctionDef):
+                    _Rename().visit(m)
+    return ast.unparse(t) + "\n"
+
+
+TRANSFORMS = {"unparse": _t_unparse, "rename-locals": _t_rename}
 
 
 def _run_one(job):
